@@ -92,7 +92,7 @@ tHdrNoAB   == E(pA, None, NoRE, None, <<H("X-A", <<None>>, NoRE), H("X-B", None,
 C01Templates == {tExactA, tPrefixA, tPrefixRt, tReTail, tReFree, tExactGet, tPrefixPost, tHdrA, tHdrAny, tHdrAll,
                  tRwExact, tRwPrefix, tRwRe, tThree, tHdrRe, tAny, tMissing, tRwAll, tHdrValRe, tHdrValOrRe, tRwPct,
                  tHdrNoA, tHdrOptA, tHdrNoAorB, tHdrAllOpt, tHdrNoAB}
-C01Core == {tExactA, tPrefixRt, tExactGet, tPrefixPost, tHdrA, tHdrAll, tRwRe, tMissing, tHdrNoA, tHdrOptA}
+C01Core == {tExactA, tPrefixRt, tExactGet, tPrefixPost, tHdrA, tHdrAll, tRwRe, tMissing, tHdrNoA}
 Shell(h, re) == [host |-> h, hostRE |-> re, ipf |-> NoFilter]
 C01ServerFilters == {NoFilter}
 C01Shells =={Shell(None, NoRE), Shell(hH, NoRE), Shell(None, R(TRUE, hH, FALSE, FALSE))}
@@ -109,9 +109,9 @@ C01InitOver(c, T, tot) ==
     \/ \E s \in C01Shells, k \in Shapes1(tot) : \E ts \in [1..k -> T] : c = MkCfg(NoFilter, <<s>>, <<ts>>)
     \/ \E sp \in C01ShellPairs, sh \in Shapes2(tot) : \E t1 \in [1..sh[1] -> T], t2 \in [1..sh[2] -> T] :
            c = MkCfg(NoFilter, sp, <<t1, t2>>)
-C01InitQuick(c) == C01InitOver(c, C01Core, 2)          \* ~1 k configurations
-C01InitWide(c) == C01InitOver(c, C01Templates, 2)      \* ~6 k configurations
-C01InitDeep(c) == C01InitOver(c, C01Core, 3)           \* ~5 k configurations, three entries
+C01InitQuick(c) == C01InitOver(c, C01Core, 2)          \* ~1.3 k configurations
+C01InitWide(c) == C01InitOver(c, C01Templates, 2)      \* ~10 k configurations
+C01InitDeep(c) == C01InitOver(c, C01Core, 3)           \* ~7 k configurations, three entries
 
 ip1 == [fam |-> 4, bits |-> <<0, 0>>]
 ip9 == [fam |-> 4, bits |-> <<1, 0>>]
